@@ -133,6 +133,10 @@ package session
 //@   requires s != nil
 //@   ensures[C06,C07,C16] res == (s.state == SuccessfulLogged)
 
+//@ func (s *Session) getState() (res LogonState)
+//@   requires s != nil
+//@   pure
+//@   ensures[C06,C07,C09,C15,C16] res == s.state
 //@ func (s *Session) changeState(state LogonState, isEventTriggerRequired bool)
 //@   requires s != nil && s.eventHandler != nil
 //@   modifies s.state, everLogged, trigN, trigAt, routerStopped, timersStarted
